@@ -150,6 +150,23 @@ def dataset_dict(case):
         prove("meta_kept", ds.meta == {"time": 3.0})
 
 
+@unit("C20", "get.falsy_values", targets=[DG + ":Datagroup.get", DS + ":Dataset.get"],
+      cases=[{"label": "scalar_member"}, {"label": "empty_group"}], replay=NC.replay_dict)
+def get_falsy(case):
+    """a stored value that is falsy (0-d Array: len() == 0; empty Datagroup) is still returned by get()"""
+    osy = O()
+    if case["label"] == "scalar_member":
+        g = osy.Datagroup()
+        a = osy.Array(values=core.fresh_real("s"), unit=spint.sym_unit("us"))
+        g["s"] = a
+        prove("returned_stored", g.get("s", "default") is a)
+    else:
+        ds = osy.Dataset()
+        e = osy.Datagroup()
+        ds["e"] = e
+        prove("returned_stored", ds.get("e", "default") is e)
+
+
 @unit("C20", "Dataset.__setitem__.gate", targets=[DS + ":Dataset.__setitem__"],
       cases=[{"label": k} for k in ("Array", "dict", "None")], replay=NC.replay_dict)
 def dataset_gate(case):
@@ -170,7 +187,7 @@ def dataset_gate(case):
 # equality by content
 # --------------------------------------------------------------------------------------
 _EQ = [{"label": "%s,%s" % (cfg, rel), "cfg": cfg, "rel": rel} for cfg in ("a", "v", "av")
-       for rel in ("arbitrary", "other_units")] + [{"label": "different_keys", "cfg": "a", "rel": "keys"},
+       for rel in ("arbitrary", "other_units")] + [{"label": "av,reordered", "cfg": "av", "rel": "reordered"}] + [{"label": "different_keys", "cfg": "a", "rel": "keys"},
                                                     {"label": "empty", "cfg": "empty", "rel": "arbitrary"}]
 
 
@@ -192,18 +209,25 @@ def eq(case):
     # h: same keys, arbitrary contents; units equal or merely compatible
     h = osy.Datagroup()
     hm = {}
-    for name in CONFIGS[case["cfg"]]:
+    order = list(CONFIGS[case["cfg"]])
+    if case["rel"] == "reordered":
+        order = order[::-1]  # same keys inserted in another order: equality is by key, not by position
+    for name in order:
         src = gm[name]
         if name.startswith("v"):
-            u = src.unit if case["rel"] == "arbitrary" else spint.sym_unit("uh" + name, family=src.unit)
+            u = src.unit if case["rel"] in ("arbitrary", "reordered") else spint.sym_unit("uh" + name, family=src.unit)
             dt = snp.sym_dtype("dth" + name)
             m = osy.Vector(*[A.mk_array("h" + name + c, dims, "1d", unit=u, dt=dt) for c in "xy"])
         else:
-            u = src.unit if case["rel"] == "arbitrary" else spint.sym_unit("uh" + name, family=src.unit)
+            u = src.unit if case["rel"] in ("arbitrary", "reordered") else spint.sym_unit("uh" + name, family=src.unit)
             m = A.mk_array("h" + name, dims, "1d", unit=u)
         h[name] = m
         hm[name] = m
-    result = g == h
+    try:
+        result = g == h
+    except spint.DimensionalityError:
+        prove("comparison_does_not_raise_for_compatible_members", False)
+        return
     res = bool(result)
     # content equality, from the statement: for every member/component and every row the
     # physical quantities agree
@@ -257,3 +281,8 @@ def native(tier, seed):
     from pyvc import nativerun
 
     return nativerun.run("contracts.native_containers:sweep_c20", tier, seed)
+
+
+from . import foundation  # noqa: E402
+
+foundation.register("C20")
